@@ -21,6 +21,7 @@ import (
 	"verif/sim/kernel"
 	"verif/sim/simdb"
 	"verif/sim/simnode"
+	"verif/sim/txgen"
 )
 
 // durable is everything of a node that survives a process crash: the image of
@@ -71,6 +72,7 @@ type commitRec struct {
 type world struct {
 	c       *kernel.Ctx
 	gen     *simnode.GenesisSpec
+	txg     *txgen.Gen // workload generator and reference ledger
 	key     simnode.ValKey
 	isTrie  bool
 	scratch string
